@@ -129,7 +129,7 @@ CLAIMED = {
          "DESIGN.md §4 C30"),
 }
 
-HOLD = {"C08", "C26"}      # built but waiting for a green run on the current tree (seed-robustness)
+HOLD = set()      # built but waiting for a green run on the current tree (seed-robustness)
 
 PENDING_REASON = "not claimed yet: check under construction (see DESIGN.md §6 order of construction)"
 
